@@ -1100,6 +1100,10 @@ func backFaultClass(t *gty, v reflect.Value, text string) string {
 		return "plain-struct-hash"
 	case strings.Contains(text, "MakeSlice of non-slice type") && t.has("array"):
 		return "array-reflect-to"
+	case strings.Contains(text, "is not assignable to type struct") && ifacePtrStructElems(t, v, false, false):
+		// an interface{} holding a container whose elements are POINTERS to a registered struct: the Go type inferred for it has
+		// the struct itself as its element type (objectType.ReflectType), the element objects hold the pointers
+		return "iface-ptr-struct-elems-fault"
 	case strings.Contains(text, "value of kind int to a reflect.Value of kind float64") && t.has("iface"):
 		// an interface{} holding a container of integers AND floats: the Go type inferred for it is []float64 / map[..]float64
 		return "iface-numeric-mix-fault"
@@ -2760,6 +2764,7 @@ func gen(g *core.G) {
 	g.Emit("@refl (map string iface) (m (x6b (i (struct (A bool)) (st t))))")
 	g.Emit("@refl (struct (A iface) (B (struct (X bool)))) (st (i (struct (X bool)) (st t)) (st f))")
 	g.Emit("@obj (struct (A iface) (B (struct (X bool)))) (st (i (ptr (struct (X bool))) (p (st t))) (st f))")
+	genIfaceStructs(g)
 	// tags of other kinds beside the puppet tag (they become a TagsAnnotation of the attribute; implementation only)
 	g.Emit(`@obj (struct (A (int 8) ` + sx.Str(`json:"a" puppet:"name=>'x'"`).Atom + `) (B string ` + sx.Str(`json:"bb,omitempty" yaml:"b"`).Atom + `)) (st 3 x61)`)
 	g.Emit(`@refl (struct (A (ptr string) ` + sx.Str(`lyra:"ignore" puppet:"value=>'d'"`).Atom + `)) (st nil)`)
